@@ -1,5 +1,7 @@
 import SMV.Props.C11
 import SMV.Props.C16
+import SMV.Props.C12
+import SMV.Model.Clone
 /-!
 # C17 — deepcopy / pickle clones are equivalent and independent
 
@@ -46,5 +48,248 @@ theorem C17_independent (ms : List Machine) (o : Opts) (fuel : Nat) (ops : List 
     (i : Nat) (m : Machine) (c : Cfg) (hm : ms[i]? = some m) (hc : w[i]? = some c) :
     (runWorld ms o fuel ops w)[i]? = some (runOps m o fuel (own i ops) c) :=
   C16_frame ms o fuel ops w i m c hm hc
+
+/-!
+## The clone's callback registry (`SMV.Prov`, `Model/Clone.lean`)
+
+`__setstate__` rebuilds the registry of the copy. Repaired (`setstate true`) it is the constructor's
+`_register_callbacks` over `[machine, model, *listeners]`, so
+* `C17_registry_ctor`: the clone of a machine constructed with listeners has exactly the
+  constructor's registry and engine kind;
+* `C17_registry_late`, `C17_registry_late_exists`, `C17_registry_late_async`: when some listeners
+  were attached later with `add_listener`, the clone exists whenever the original did, holds the
+  same set of resolved callbacks, and hence sees the same "has a coroutine callback" answer;
+* `C17_registry_fixed_kind`: the clone's engine is the async one iff some callback of the *full*
+  registry (listeners included) is a coroutine function.
+As is (`setstate false`) the check and the engine choice happened before the listeners were back:
+`C17_D25a_witness`, `C17_D25b_witness`.
+-/
+namespace Prov
+
+theorem mem_addKey_mono (ex : List Item) (it x : Item) (h : x ∈ ex) : x ∈ addKey ex it := by
+  unfold addKey
+  split <;> simp [h]
+
+theorem mem_resolveName_mono (ex : List Item) (n : Name) (ps : List Provider) (x : Item) (h : x ∈ ex) :
+    x ∈ resolveName ex n ps := by
+  induction ps generalizing ex with
+  | nil => exact h
+  | cons q ps ih =>
+    unfold resolveName
+    split
+    · exact ih _ (mem_addKey_mono ex _ x h)
+    · exact ih _ h
+
+/-- attaching never removes an item -/
+theorem mem_attach_mono (ex : List Item) (ps : List Provider) (ns : List Name) (x : Item) (h : x ∈ ex) :
+    x ∈ attach ex ps ns := by
+  induction ns generalizing ex with
+  | nil => exact h
+  | cons n ns ih => exact ih _ (mem_resolveName_mono ex n ps x h)
+
+theorem hasKey_iff (ex : List Item) (n : Name) (p : ProvId) :
+    hasKey ex n p = true ↔ ∃ x ∈ ex, x.name = n ∧ x.prov = p := by
+  simp [hasKey, List.any_eq_true]
+
+/-- distinct ids: a provider of the list is determined by its id -/
+theorem provider_of_id (ps : List Provider) (hnd : (ps.map (·.id)).Nodup) (p q : Provider)
+    (hp : p ∈ ps) (hq : q ∈ ps) (h : p.id = q.id) : p = q := by
+  induction ps with
+  | nil => cases hp
+  | cons a ps ih =>
+    simp only [List.map_cons, List.nodup_cons, List.mem_map, not_exists, not_and] at hnd
+    rcases List.mem_cons.mp hp with rfl | hp' <;> rcases List.mem_cons.mp hq with rfl | hq'
+    · rfl
+    · exact absurd h.symm (hnd.1 q hq')
+    · exact absurd h (hnd.1 p hp')
+    · exact ih hnd.2 hp' hq'
+
+/-- **Membership in an executor**, for providers with distinct ids none of which already has an
+item in `ex`: the items afterwards are the old ones plus exactly one item (name, provider, the
+callback that provider offers under that name) per listed name and offering provider. -/
+theorem mem_attach_iff (ex : List Item) (ps : List Provider) (ns : List Name) (it : Item)
+    (hnd : (ps.map (·.id)).Nodup) (hdisj : ∀ x ∈ ex, ∀ p ∈ ps, x.prov ≠ p.id) :
+    it ∈ attach ex ps ns ↔
+      it ∈ ex ∨ ∃ p ∈ ps, it.name ∈ ns ∧ it.prov = p.id ∧ offers p it.name = some it.cb := by
+  constructor
+  · exact C12_only_offered ex ps ns it
+  · rintro (h | ⟨p, hp, hn, e1, e2⟩)
+    · exact mem_attach_mono ex ps ns it h
+    · have hk := attach_saturates ex ps ns it.name hn p hp it.cb e2
+      obtain ⟨x, hx, hxn, hxp⟩ := (hasKey_iff _ _ _).mp hk
+      rcases C12_only_offered ex ps ns x hx with h1 | ⟨q, hq, _, f1, f2⟩
+      · exact absurd hxp (hdisj x h1 p hp)
+      · have hqp : q = p := provider_of_id ps hnd q p hq hp (by rw [← f1, hxp])
+        subst hqp
+        rw [hxn, e2] at f2
+        have hxit : x = it := by
+          cases x; cases it
+          simp_all
+        exact hxit ▸ hx
+
+/-- every item of a freshly built executor is what its (unique) provider offers under its name -/
+theorem attach_nil_item_offered (ps : List Provider) (ns : List Name) (it : Item)
+    (h : it ∈ attach [] ps ns) : ∃ p ∈ ps, it.name ∈ ns ∧ it.prov = p.id ∧ offers p it.name = some it.cb := by
+  rcases C12_only_offered [] ps ns it h with h | h
+  · cases h
+  · exact h
+
+/-- `check` is monotone in the item set -/
+theorem checkNames_mono (ex ex' : List Item) (required : List Name) (hsub : ∀ it ∈ ex, it ∈ ex')
+    (h : checkNames ex required = true) : checkNames ex' required = true := by
+  simp only [checkNames, List.all_eq_true, List.any_eq_true] at *
+  intro n hn
+  obtain ⟨it, hit, e⟩ := h n hn
+  exact ⟨it, hsub it hit, e⟩
+
+/-- `has_async_callbacks` depends on the item set only -/
+theorem hasAsync_congr (isCoro : CbId → Bool) (ex ex' : List Item) (h : ∀ it, it ∈ ex ↔ it ∈ ex') :
+    hasAsync isCoro ex = hasAsync isCoro ex' := by
+  rw [Bool.eq_iff_iff]
+  simp only [hasAsync, List.any_eq_true]
+  constructor
+  · rintro ⟨it, hit, e⟩; exact ⟨it, (h it).mp hit, e⟩
+  · rintro ⟨it, hit, e⟩; exact ⟨it, (h it).mpr hit, e⟩
+
+theorem registerAll_ok (isCoro : CbId → Bool) (ps : List Provider) (names required : List Name) (r : Reg)
+    (h : registerAll isCoro ps names required = .ok r) :
+    r.items = attach [] ps names ∧ checkNames (attach [] ps names) required = true ∧
+    r.kind = (if hasAsync isCoro (attach [] ps names) then .async else .sync) := by
+  unfold registerAll at h
+  simp only at h
+  split at h
+  · rename_i hc
+    cases h
+    exact ⟨rfl, hc, rfl⟩
+  · cases h
+
+/-- the item sets of "constructed with `mm ++ ctor`, later `add_listener(*late)`" and
+"registered in one pass over `mm ++ ctor ++ late`" coincide -/
+theorem late_items_iff (mm ctor late : List Provider) (names : List Name)
+    (hnd : ((mm ++ ctor ++ late).map (·.id)).Nodup) (it : Item) :
+    it ∈ attach [] (mm ++ (ctor ++ late)) names ↔
+      it ∈ attach (attach [] (mm ++ ctor) names) late names := by
+  rw [← List.append_assoc]
+  have hnd' := hnd
+  rw [List.map_append, List.nodup_append] at hnd'
+  obtain ⟨hnd1, hnd2, hcross⟩ := hnd'
+  have hdisj : ∀ x ∈ attach [] (mm ++ ctor) names, ∀ p ∈ late, x.prov ≠ p.id := by
+    intro x hx p hp e
+    obtain ⟨q, hq, _, f1, _⟩ := attach_nil_item_offered _ _ _ hx
+    exact hcross q.id (List.mem_map.mpr ⟨q, hq, rfl⟩) p.id (List.mem_map.mpr ⟨p, hp, rfl⟩) (by rw [← f1, e])
+  rw [mem_attach_iff [] _ names it hnd (by intro x hx; cases hx),
+    mem_attach_iff _ late names it hnd2 hdisj,
+    mem_attach_iff [] _ names it hnd1 (by intro x hx; cases hx)]
+  simp only [List.not_mem_nil, false_or]
+  constructor
+  · rintro ⟨p, hp, rest⟩
+    rcases List.mem_append.mp hp with hp | hp
+    · exact Or.inl ⟨p, hp, rest⟩
+    · exact Or.inr ⟨p, hp, rest⟩
+  · rintro (⟨p, hp, rest⟩ | ⟨p, hp, rest⟩)
+    · exact ⟨p, List.mem_append.mpr (Or.inl hp), rest⟩
+    · exact ⟨p, List.mem_append.mpr (Or.inr hp), rest⟩
+
+/-- **C17 (registry, constructor listeners).** The repaired `__setstate__` of a machine that was
+constructed with listeners `ls` yields exactly the constructor's registry and engine kind (or
+exactly its `InvalidDefinition`). -/
+theorem C17_registry_ctor (isCoro : CbId → Bool) (mm ls : List Provider) (names required : List Name) :
+    setstate true isCoro mm ls names required = registerAll isCoro (mm ++ ls) names required := rfl
+
+/-- **C17 (registry, late listeners).** Original: constructed over `mm ++ ctor`
+(`[machine, model, *ctor]`), later extended by `add_listener(*late)`. Its repaired clone is built
+in one pass over `mm ++ ctor ++ late`. Provided the providers are distinct objects (distinct ids),
+the clone holds exactly the same resolved callbacks as the original.
+
+Only the *set* is preserved: with a late listener the order inside an executor may differ (the
+original has the late listener's callbacks after those of every name, the clone has them after the
+constructor providers' callbacks of the *same* name — see the `example` below); callbacks inside
+one group are unordered by the documented contract. The engine `kind` is deliberately not compared:
+the original keeps the engine chosen at construction (finding D12) while the clone chooses from the
+full registry (`C17_registry_fixed_kind`). -/
+theorem C17_registry_late (isCoro : CbId → Bool) (mm ctor late : List Provider) (names required : List Name)
+    (hnd : ((mm ++ ctor ++ late).map (·.id)).Nodup) (r₀ r' : Reg)
+    (h₀ : registerAll isCoro (mm ++ ctor) names required = .ok r₀)
+    (h' : setstate true isCoro mm (ctor ++ late) names required = .ok r') :
+    ∀ it, it ∈ r'.items ↔ it ∈ (addListeners r₀ late names).items := by
+  intro it
+  obtain ⟨e₀, _, _⟩ := registerAll_ok _ _ _ _ _ h₀
+  obtain ⟨e', _, _⟩ := registerAll_ok _ _ _ _ _ h'
+  simp only [addListeners, e₀, e']
+  exact late_items_iff mm ctor late names hnd it
+
+/-- … and the clone never fails when the original existed (`check` is monotone in the item set) -/
+theorem C17_registry_late_exists (isCoro : CbId → Bool) (mm ctor late : List Provider)
+    (names required : List Name) (hnd : ((mm ++ ctor ++ late).map (·.id)).Nodup) (r₀ : Reg)
+    (h₀ : registerAll isCoro (mm ++ ctor) names required = .ok r₀) :
+    ∃ r', setstate true isCoro mm (ctor ++ late) names required = .ok r' := by
+  obtain ⟨_, hc, _⟩ := registerAll_ok _ _ _ _ _ h₀
+  have hc' : checkNames (attach [] (mm ++ (ctor ++ late)) names) required = true :=
+    checkNames_mono _ _ required
+      (fun it hit => (late_items_iff mm ctor late names hnd it).mpr (mem_attach_mono _ late names it hit)) hc
+  refine ⟨⟨attach [] (mm ++ (ctor ++ late)) names,
+    if hasAsync isCoro (attach [] (mm ++ (ctor ++ late)) names) then .async else .sync⟩, ?_⟩
+  simp [setstate, registerAll, hc']
+
+/-- … and original and clone agree on whether a coroutine callback is registered -/
+theorem C17_registry_late_async (isCoro : CbId → Bool) (mm ctor late : List Provider)
+    (names required : List Name) (hnd : ((mm ++ ctor ++ late).map (·.id)).Nodup) (r₀ r' : Reg)
+    (h₀ : registerAll isCoro (mm ++ ctor) names required = .ok r₀)
+    (h' : setstate true isCoro mm (ctor ++ late) names required = .ok r') :
+    hasAsync isCoro r'.items = hasAsync isCoro (addListeners r₀ late names).items :=
+  hasAsync_congr isCoro _ _ (C17_registry_late isCoro mm ctor late names required hnd r₀ r' h₀ h')
+
+/-- **C17 (engine of the clone; D25b repaired).** The repaired `__setstate__` chooses the async
+engine iff some callback of the full registry — machine, model *and listeners* — is a coroutine. -/
+theorem C17_registry_fixed_kind (isCoro : CbId → Bool) (mm ls : List Provider) (names required : List Name)
+    (r : Reg) (h : setstate true isCoro mm ls names required = .ok r) :
+    r.items = attach [] (mm ++ ls) names ∧
+    (r.kind = .async ↔ ∃ it ∈ r.items, isCoro it.cb = true) := by
+  obtain ⟨e, _, k⟩ := registerAll_ok _ _ _ _ _ h
+  refine ⟨e, ?_⟩
+  rw [k, e]
+  have hiff : hasAsync isCoro (attach [] (mm ++ ls) names) = true ↔
+      ∃ it ∈ attach [] (mm ++ ls) names, isCoro it.cb = true := by
+    simp [hasAsync, List.any_eq_true]
+  rw [← hiff]
+  cases hasAsync isCoro (attach [] (mm ++ ls) names) <;> simp
+
+/-- **D25a (as is).** Name 7 is required and offered only by the listener (provider 2): the
+constructor accepts the machine, the unrepaired `__setstate__` raises `InvalidDefinition` (its check
+runs on machine + model only); the repaired one rebuilds the registry. -/
+theorem C17_D25a_witness :
+    registerAll (fun _ => false) ([⟨0, []⟩, ⟨1, []⟩] ++ [⟨2, [(7, 70)]⟩]) [7] [7] = .ok ⟨[⟨7, 2, 70⟩], .sync⟩ ∧
+    setstate false (fun _ => false) [⟨0, []⟩, ⟨1, []⟩] [⟨2, [(7, 70)]⟩] [7] [7] = .error .invalidDef ∧
+    setstate true (fun _ => false) [⟨0, []⟩, ⟨1, []⟩] [⟨2, [(7, 70)]⟩] [7] [7] = .ok ⟨[⟨7, 2, 70⟩], .sync⟩ := by
+  decide
+
+/-- **D25b (as is).** Only the listener's callback (72) is a coroutine function: the constructor
+and the repaired `__setstate__` choose the async engine, the unrepaired one the sync engine — with
+the very same items. -/
+theorem C17_D25b_witness :
+    registerAll (· == 72) ([⟨0, [(7, 70)]⟩, ⟨1, []⟩] ++ [⟨2, [(7, 72)]⟩]) [7] [7]
+      = .ok ⟨[⟨7, 0, 70⟩, ⟨7, 2, 72⟩], .async⟩ ∧
+    setstate false (· == 72) [⟨0, [(7, 70)]⟩, ⟨1, []⟩] [⟨2, [(7, 72)]⟩] [7] [7]
+      = .ok ⟨[⟨7, 0, 70⟩, ⟨7, 2, 72⟩], .sync⟩ ∧
+    setstate true (· == 72) [⟨0, [(7, 70)]⟩, ⟨1, []⟩] [⟨2, [(7, 72)]⟩] [7] [7]
+      = .ok ⟨[⟨7, 0, 70⟩, ⟨7, 2, 72⟩], .async⟩ := by
+  decide
+
+/-- non-vacuity of `C17_registry_late`: machine 0 offers name 5, model 1 and constructor listener 2
+offer name 6, the late listener 3 offers name 5 too. Hypotheses hold; original and clone hold the
+same four items, in a different order. -/
+example :
+    let mm : List Provider := [⟨0, [(5, 50)]⟩, ⟨1, [(6, 61)]⟩]
+    let ctor : List Provider := [⟨2, [(6, 62)]⟩]
+    let late : List Provider := [⟨3, [(5, 53)]⟩]
+    ((mm ++ ctor ++ late).map (·.id)).Nodup ∧
+    registerAll (fun _ => false) (mm ++ ctor) [5, 6] [5] = .ok ⟨[⟨5, 0, 50⟩, ⟨6, 1, 61⟩, ⟨6, 2, 62⟩], .sync⟩ ∧
+    (addListeners ⟨[⟨5, 0, 50⟩, ⟨6, 1, 61⟩, ⟨6, 2, 62⟩], .sync⟩ late [5, 6]).items
+      = [⟨5, 0, 50⟩, ⟨6, 1, 61⟩, ⟨6, 2, 62⟩, ⟨5, 3, 53⟩] ∧
+    setstate true (fun _ => false) mm (ctor ++ late) [5, 6] [5]
+      = .ok ⟨[⟨5, 0, 50⟩, ⟨5, 3, 53⟩, ⟨6, 1, 61⟩, ⟨6, 2, 62⟩], .sync⟩ := by
+  decide
+
+end Prov
 
 end SMV
